@@ -92,19 +92,6 @@ func consumeSliceSorted(v []int) string {
 	return fmt.Sprint(c)
 }
 
-func consumeCacheMap(m map[string]*cache.Item[int]) string {
-	keys := make([]string, 0, len(m))
-	for k := range m {
-		keys = append(keys, k)
-	}
-	sort.Strings(keys)
-	var b strings.Builder
-	for _, k := range keys {
-		fmt.Fprintf(&b, "%s=%d ", k, m[k].Val())
-	}
-	return b.String()
-}
-
 func consumeQueuer(q trie.Queuer[string]) string {
 	var out []string
 	n := q.Size()
@@ -538,12 +525,21 @@ const (
 	cachePreAged = 4
 )
 
-type cacheInst struct {
-	c     *cache.Cache[string, int]
+// cacheInst is instantiated for several value types (cfg bits 8 and 16): a flaw may show only for
+// one of them (the cache itself switches on the value's dynamic type to reject empty strings).
+type cacheInst[V any] struct {
+	c     *cache.Cache[string, V]
 	timed bool
+	mk    func(int) V
+	rd    func(V) string
 }
 
-func (x *cacheInst) dur(b int) time.Duration {
+type cacheVal struct {
+	A, B int
+	S    string
+}
+
+func (x *cacheInst[V]) dur(b int) time.Duration {
 	if !x.timed {
 		return cache.NoExpiration
 	}
@@ -556,17 +552,41 @@ func (x *cacheInst) dur(b int) time.Duration {
 	return 5 * time.Millisecond
 }
 
-func (x *cacheInst) call(o OpCall) string {
+func (x *cacheInst[V]) item(it *cache.Item[V]) string { return x.rd(it.Val()) }
+
+func (x *cacheInst[V]) listing(m map[string]*cache.Item[V]) string {
+	keys := make([]string, 0, len(m))
+	for k := range m {
+		keys = append(keys, k)
+	}
+	sort.Strings(keys)
+	var b strings.Builder
+	for _, k := range keys {
+		fmt.Fprintf(&b, "%s=%s ", k, consumeCacheVal(x.rd, m[k]))
+	}
+	return b.String()
+}
+
+// consumeCacheVal reads an item handed back by the cache (a consumer function: the legitimate
+// second party of a race report on data returned to the caller).
+func consumeCacheVal[V any](rd func(V) string, it *cache.Item[V]) string { return rd(it.Val()) }
+
+func consumeInt(v int) string         { return fmt.Sprint(v) }
+func consumeStr(v string) string      { return v }
+func consumeBytes(v []byte) string    { return string(v) }
+func consumeStruct(v cacheVal) string { return fmt.Sprint(v.A, v.B, v.S) }
+
+func (x *cacheInst[V]) call(o OpCall) string {
 	switch o.Op {
 	case "Set":
-		return errStr(x.c.Set(ck(o.A), o.B, x.dur(o.B)))
+		return errStr(x.c.Set(ck(o.A), x.mk(o.B), x.dur(o.B)))
 	case "SetDefault":
-		return errStr(x.c.SetDefault(ck(o.A), o.B))
+		return errStr(x.c.SetDefault(ck(o.A), x.mk(o.B)))
 	case "Get":
 		it, err := x.c.Get(ck(o.A))
-		return fmt.Sprint(it.Val(), errStr(err))
+		return consumeCacheVal(x.rd, it) + errStr(err)
 	case "Update":
-		return errStr(x.c.Update(ck(o.A), o.B, x.dur(o.B)))
+		return errStr(x.c.Update(ck(o.A), x.mk(o.B), x.dur(o.B)))
 	case "Delete":
 		return errStr(x.c.Delete(ck(o.A)))
 	case "DeleteExpired":
@@ -575,43 +595,65 @@ func (x *cacheInst) call(o OpCall) string {
 		x.c.Flush()
 		return ""
 	case "List":
-		return consumeCacheMap(x.c.List())
+		return x.listing(x.c.List())
 	case "ListLater":
 		m := x.c.List()
 		simrt.Yield()
-		return consumeCacheMap(m)
+		return x.listing(m)
 	case "GetLater":
 		it, err := x.c.Get(ck(o.A))
 		simrt.Yield()
-		return fmt.Sprint(it.Val(), errStr(err))
+		return consumeCacheVal(x.rd, it) + errStr(err)
 	case "Count":
 		return fmt.Sprint(x.c.Count())
 	case "MapToCache":
-		return errStr(x.c.MapToCache(map[string]int{ck(o.A): o.B}, x.dur(o.B)))
+		return errStr(x.c.MapToCache(map[string]V{ck(o.A): x.mk(o.B)}, x.dur(o.B)))
 	case "IsExpired":
 		return fmt.Sprint(x.c.IsExpired(ck(o.A)))
 	}
 	panic("harness: unknown cache op " + o.Op)
 }
 
-func (x *cacheInst) observe() []string {
-	out := []string{"Count=" + fmt.Sprint(x.c.Count()), "List=" + consumeCacheMap(x.c.List())}
+func (x *cacheInst[V]) observe() []string {
+	out := []string{"Count=" + fmt.Sprint(x.c.Count()), "List=" + x.listing(x.c.List())}
 	for i := range cacheKeys {
 		it, err := x.c.Get(ck(i))
-		out = append(out, fmt.Sprintf("Get%s=%d,%s,%v", ck(i), it.Val(), errStr(err), x.c.IsExpired(ck(i))))
+		out = append(out, fmt.Sprintf("Get%s=%s,%s,%v", ck(i), consumeCacheVal(x.rd, it), errStr(err), x.c.IsExpired(ck(i))))
 	}
 	out = append(out, "CountAfterGets="+fmt.Sprint(x.c.Count()))
-	x.c.Update("zz", 5, cache.NoExpiration)
+	x.c.Update("zz", x.mk(5), cache.NoExpiration)
 	it, err := x.c.Get("zz")
-	out = append(out, fmt.Sprintf("AfterUpdate=%d,%s", it.Val(), errStr(err)))
+	out = append(out, fmt.Sprintf("AfterUpdate=%s,%s", consumeCacheVal(x.rd, it), errStr(err)))
 	return out
+}
+
+func (x *cacheInst[V]) container() any { return x.c }
+
+func buildCache[V any](init []int, cfg int, mk func(int) V, rd func(V) string) instance {
+	exp := time.Duration(cache.NoExpiration)
+	if cfg&cacheTimed != 0 {
+		exp = 20 * time.Millisecond
+	}
+	var cl time.Duration
+	if cfg&cacheJanitor != 0 {
+		cl = 10 * time.Millisecond
+	}
+	x := &cacheInst[V]{c: cache.New[string, V](exp, cl), timed: cfg&cacheTimed != 0, mk: mk, rd: rd}
+	for i, v := range init {
+		x.c.Update(ck(v), x.mk(900+i), x.dur(i+2))
+	}
+	if cfg&cachePreAged != 0 && cfg&cacheTimed != 0 {
+		// only ever executed inside a bubble (see timedCfg): simulated, not real, time
+		time.Sleep(7 * time.Millisecond)
+	}
+	return x
 }
 
 var cacheAdapter = adapter{
 	covers: []string{"Set", "SetDefault", "Get", "Update", "Delete", "DeleteExpired", "Flush", "List", "Count", "MapToCache", "IsExpired"},
 	name:   "cache",
 	alpha:  3,
-	ncfg:   8,
+	ncfg:   32,
 	ops: []opDesc{
 		{name: "Set", nargs: 2, single: true}, {name: "SetDefault", nargs: 2}, {name: "Get", nargs: 1, single: true},
 		{name: "Update", nargs: 2, single: true}, {name: "Delete", nargs: 1, single: true}, {name: "DeleteExpired"},
@@ -619,23 +661,16 @@ var cacheAdapter = adapter{
 		{name: "ListLater"}, {name: "GetLater", nargs: 1},
 	},
 	build: func(init []int, cfg int) instance {
-		exp := time.Duration(cache.NoExpiration)
-		if cfg&cacheTimed != 0 {
-			exp = 20 * time.Millisecond
+		switch (cfg >> 3) & 3 {
+		case 1:
+			return buildCache(init, cfg, func(i int) string { return "s" + fmt.Sprint(i) }, consumeStr)
+		case 2:
+			// fixed length, so that a buffer-recycling store always fits the old buffer
+			return buildCache(init, cfg, func(i int) []byte { return []byte(fmt.Sprintf("b%06d", i)) }, consumeBytes)
+		case 3:
+			return buildCache(init, cfg, func(i int) cacheVal { return cacheVal{A: i, B: i + 1, S: "x" + fmt.Sprint(i)} }, consumeStruct)
 		}
-		var cl time.Duration
-		if cfg&cacheJanitor != 0 {
-			cl = 10 * time.Millisecond
-		}
-		x := &cacheInst{c: cache.New[string, int](exp, cl), timed: cfg&cacheTimed != 0}
-		for i, v := range init {
-			x.c.Update(ck(v), 900+i, x.dur(i+2))
-		}
-		if cfg&cachePreAged != 0 && cfg&cacheTimed != 0 {
-			// only ever executed inside a bubble (see timedCfg): simulated, not real, time
-			time.Sleep(7 * time.Millisecond)
-		}
-		return x
+		return buildCache(init, cfg, func(i int) int { return i }, consumeInt)
 	},
 }
 
@@ -655,8 +690,9 @@ func subject(inst instance) any {
 		return x.lq
 	case *stackInst:
 		return x.s
-	case *cacheInst:
-		return x.c
+	}
+	if c, ok := inst.(interface{ container() any }); ok {
+		return c.container()
 	}
 	return nil
 }
@@ -668,8 +704,32 @@ func simpleArg(t reflect.Type) bool {
 	switch t.Kind() {
 	case reflect.Int, reflect.Int64, reflect.String, reflect.Bool:
 		return true
+	case reflect.Func:
+		// a callback: the harness passes a pure one that reads its arguments and returns zero values
+		// (true for a bool, so that an iteration goes on)
+		return !t.IsVariadic()
 	}
 	return false
+}
+
+// pureCallback synthesises a callback of type t: it reads its arguments (so that data the
+// library hands to the callback is consumed like any data handed back) and returns zero
+// values, true for bool results.
+func pureCallback(t reflect.Type) reflect.Value {
+	return reflect.MakeFunc(t, func(args []reflect.Value) []reflect.Value {
+		var b strings.Builder
+		for _, a := range args {
+			renderAuto(&b, a, 0)
+		}
+		out := make([]reflect.Value, t.NumOut())
+		for i := range out {
+			out[i] = reflect.Zero(t.Out(i))
+			if t.Out(i).Kind() == reflect.Bool {
+				out[i] = reflect.ValueOf(true).Convert(t.Out(i))
+			}
+		}
+		return out
+	})
 }
 
 // discoverAutoOps adds an "auto:<Method>" catalogue entry for every exported method of the
@@ -743,6 +803,8 @@ func autoCall(inst instance, ad *adapter, o OpCall) string {
 		case at.Kind() == reflect.Bool:
 			v.SetBool(ints[ni%2]%2 == 0)
 			ni++
+		case at.Kind() == reflect.Func:
+			v = pureCallback(at)
 		}
 		args[j] = v
 	}
